@@ -6,7 +6,9 @@ package main
 import (
 	"errors"
 	"fmt"
+	"net/netip"
 	"os"
+	"runtime"
 	"runtime/debug"
 	"strings"
 
@@ -28,6 +30,12 @@ var linked = map[string]bool{"sha256": true, "sha384": true, "sha512": true}
 // availabilityCases tells the model which algorithms are available ("A" lines configure the
 // model runner) and fails the run (exit 3, layer R) when the binary does not link what it claims.
 func availabilityCases() {
+	// Model/NetURL.v is a model of net/url as of go1.26.8 (host parsing differs between Go releases)
+	if runtime.Version() != "go1.26.8" {
+		fmt.Fprintf(os.Stderr, "toolchain is %s, Model/NetURL.v models net/url of go1.26.8: review the model\n", runtime.Version())
+		run.Finish()
+		os.Exit(3)
+	}
 	// the model of Digest.Validate is of the pinned go-digest v1.0.0 (three algorithms, fixed
 	// table): any other version must be reviewed, not silently accepted
 	if bi, ok := debug.ReadBuildInfo(); ok {
@@ -63,6 +71,17 @@ func formatCase(ref registry.Reference) {
 	id := run.NewID()
 	run.Case(id, fmt.Sprintf("F %s %s %s", common.Hex(ref.Registry), common.Hex(ref.Repository), common.Hex(ref.Reference)), "FMT "+common.Hex(ref.String()))
 	run.Count("format")
+	// Reference.Validate on the same triple; a valid value must survive String()/ParseReference
+	vid := run.NewID()
+	valid := ref.Validate() == nil
+	run.Case(vid, fmt.Sprintf("W %s %s %s", common.Hex(ref.Registry), common.Hex(ref.Repository), common.Hex(ref.Reference)), fmt.Sprintf("VALID %v", valid))
+	if valid {
+		run.Count("validate_ok")
+		if back, err := registry.ParseReference(ref.String()); err != nil || back != ref {
+			run.OracleFail(vid, "validate-roundtrip", fmt.Sprintf("%#v passes Validate but String()=%q parses to %+v, %v", ref, ref.String(), back, err),
+				map[string]string{"op": "F", "registry": ref.Registry, "repository": ref.Repository, "reference": ref.Reference})
+		}
+	}
 	// oracle: '@' exactly for a valid (and linked) digest, ':' otherwise
 	if ref.Repository != "" && ref.Reference != "" {
 		sep := ":"
@@ -175,51 +194,59 @@ func okDigest(s string) bool {
 	return true
 }
 
-// registryVerdict: 1 accept, 0 reject, -1 not judged (left to net/url).
+// registryVerdict: 1 accept, 0 reject.  The complete grammar of accepted registries, written from
+// the STATEMENTS of theorems C20_registry_regname_iff / C20_registry_bracket_iff (not from
+// net/url's code): a non-empty string of host bytes -- alphanumerics, - _ . ~ ! $ & ' ( ) * + , ; =
+// : < > " and bytes >= 0x80 -- in which only digits follow the last colon; or '[' host bytes ']'
+// [':' digits] without further brackets whose inside net/netip parses as a non-IPv4 address.
+// Every registry is judged (the return value -1 "not judged" of earlier rounds no longer occurs).
 func registryVerdict(reg string) int {
-	if reg == "" || strings.ContainsRune(reg, '@') {
-		return 0
+	hostByte := func(c byte) bool {
+		return c >= 0x80 || isWord(c) || strings.IndexByte("-.~!$&'()*+,;=:[]<>\"", c) >= 0
 	}
-	// '?' ends a URL authority (the rest would be a query), space, control characters and DEL
-	// are refused by net/url: never a valid registry
-	for i := 0; i < len(reg); i++ {
-		if c := reg[i]; c == '?' || c <= ' ' || c == 0x7f {
-			return 0
-		}
-	}
-	safe := func(s string) bool {
+	allHost := func(s string) bool {
 		for i := 0; i < len(s); i++ {
-			c := s[i]
-			if !(isWord(c) || c == '-' || c == '.') {
+			if !hostByte(s[i]) {
 				return false
 			}
 		}
 		return true
 	}
-	i := strings.IndexByte(reg, ':')
-	if i < 0 {
-		if safe(reg) {
-			return 1
+	digits := func(s string) bool {
+		for i := 0; i < len(s); i++ {
+			if s[i] < '0' || s[i] > '9' {
+				return false
+			}
 		}
-		return -1
+		return true
 	}
-	h, p := reg[:i], reg[i+1:]
-	if !safe(h) || h == "" || strings.ContainsRune(p, ':') {
-		return -1
-	}
-	digits := true
-	for j := 0; j < len(p); j++ {
-		if p[j] < '0' || p[j] > '9' {
-			digits = false
-		}
-	}
-	if digits {
-		return 1
-	}
-	if safe(p) {
+	if reg == "" {
 		return 0
 	}
-	return -1
+	if !strings.Contains(reg, "[") {
+		if !allHost(reg) {
+			return 0
+		}
+		if i := strings.LastIndexByte(reg, ':'); i >= 0 && !digits(reg[i+1:]) {
+			return 0
+		}
+		return 1
+	}
+	j := strings.LastIndexByte(reg, ']')
+	if reg[0] != '[' || j < 0 {
+		return 0
+	}
+	h, p := reg[1:j], reg[j+1:]
+	if strings.Contains(h, "[") || strings.ContainsAny(p, "[]") || !allHost(h) {
+		return 0
+	}
+	if p != "" && (p[0] != ':' || !digits(p[1:])) {
+		return 0
+	}
+	if addr, err := netip.ParseAddr(h); err != nil || addr.Is4() {
+		return 0
+	}
+	return 1
 }
 
 // grammar returns (judged, accepted, expected reference).  Strings ending in a
@@ -416,6 +443,122 @@ func randomValid(r *common.Rand) string {
 		}
 		return s + ":" + t + "@" + common.Pick(r, digestPool)
 	}
+}
+
+// registryCase: Reference.ValidateRegistry on its own (any string, also ones ParseReference never
+// produces because it splits at the first '/'): implementation vs Model/NetURL.v (correspondence)
+// vs the conservative recogniser (oracle, where it decides).
+func registryCase(reg string) {
+	id := run.NewID()
+	got := registry.Reference{Registry: reg}.ValidateRegistry() == nil
+	run.Case(id, "G "+common.Hex(reg), fmt.Sprintf("REG %v", got))
+	run.Count("registry")
+	if got {
+		run.Count("registry_ok")
+		run.Nontrivial("G:" + reg)
+		if strings.HasPrefix(reg, "[") {
+			run.Count("registry_ok_bracket")
+		}
+		if c, bad := registryBadByte(reg); bad {
+			run.OracleFail(id, "registry-charset", fmt.Sprintf("ValidateRegistry accepts %q containing byte %#x", reg, c), map[string]string{"op": "G", "input": reg})
+		}
+	}
+	if v := registryVerdict(reg); v >= 0 && !strings.Contains(reg, "/") && (v == 1) != got {
+		run.OracleFail(id, "registry-accept", fmt.Sprintf("ValidateRegistry(%q) accepted=%v, recogniser says %v", reg, got, v == 1), map[string]string{"op": "G", "input": reg})
+	}
+}
+
+// randIP6: the inside of a bracketed IP literal: groups, ellipsis, embedded IPv4, zone -- valid
+// and with the defects netip.ParseAddr distinguishes
+func randIP6(r *common.Rand) string {
+	group := func() string {
+		n := 1 + r.Intn(4)
+		if r.Chance(1, 12) {
+			n = common.Pick(r, []int{0, 5, 6})
+		}
+		hexc := "0123456789abcdefABCDEF"
+		var sb strings.Builder
+		for i := 0; i < n; i++ {
+			sb.WriteByte(hexc[r.Intn(len(hexc))])
+		}
+		if r.Chance(1, 25) {
+			sb.WriteByte("gG.-_ "[r.Intn(6)])
+		}
+		return sb.String()
+	}
+	v4 := func() string {
+		oct := func() string {
+			return common.Pick(r, []string{"0", "1", "9", "10", "99", "127", "255", "256", "00", "01", "1000", "", "a", "1"})
+		}
+		n := common.Pick(r, []int{4, 4, 4, 4, 3, 5})
+		parts := make([]string, n)
+		for i := range parts {
+			parts[i] = oct()
+		}
+		return strings.Join(parts, ".")
+	}
+	total := common.Pick(r, []int{8, 8, 7, 6, 5, 4, 3, 2, 1, 0, 9, 10})
+	ell := -1
+	if total < 8 || r.Chance(1, 6) {
+		ell = r.Intn(total + 1)
+	}
+	if r.Chance(1, 8) {
+		ell = -1
+	}
+	withV4 := r.Chance(1, 4)
+	var sb strings.Builder
+	for i := 0; i < total; i++ {
+		if i == ell {
+			if i == 0 {
+				sb.WriteString("::")
+			} else {
+				sb.WriteString(":")
+			}
+		}
+		if withV4 && i == total-1 {
+			sb.WriteString(v4())
+		} else {
+			sb.WriteString(group())
+		}
+		if i < total-1 {
+			sb.WriteString(":")
+		}
+	}
+	if ell == total {
+		sb.WriteString("::")
+	}
+	s := sb.String()
+	switch r.Intn(10) {
+	case 0:
+		s += "%25" + common.Pick(r, []string{"en0", "eth0", "1", "", "a%20b", "a b", "%41", "e%zz", "x/y"})
+	case 1:
+		s += common.Pick(r, []string{"%en0", "%", "%2", ":", "::", ".", ":1.2.3.4", "x"})
+	}
+	return s
+}
+
+func randRegistry(r *common.Rand) string {
+	if r.Chance(1, 3) {
+		s := "[" + randIP6(r) + "]" + common.Pick(r, []string{"", "", ":5000", ":", ":a", "x"})
+		if r.Chance(1, 10) {
+			s = mutate(r, s)
+		}
+		return s
+	}
+	hosts := []string{"localhost", "a", "registry.example.com", "127.0.0.1", "a-b.c_d", "UP.Example", "xn--bcher-kva.example", "a~b", "a!b", "a$b&c", "(a)", "a*b", "a+b", "a,b;c=d", "a<b>", "a\"b", "\xc3\xa9.example",
+		"[::1]", "[fe80::1]", "[2001:db8::1]", "[::ffff:1.2.3.4]", "[fe80::1%25en0]", "[fe80::1%25e%20n]", "[1.2.3.4]", "[::1", "::1]", "[]", "[:]", "[g::1]", "[fe80::1%en0]", "[::1%25]", "a[b]", "[a]b"}
+	ports := []string{"", "", ":", ":5000", ":443", ":0", ":65536", ":99999999999999999999", ":a", ":5a", ":-1", "::5", ":5:6", ":5000:", ": 5"}
+	s := common.Pick(r, hosts) + common.Pick(r, ports)
+	switch r.Intn(8) {
+	case 0:
+		s = common.Pick(r, []string{"u@", "u:p@", "@", "%41@", "a@b@"}) + s
+	case 1:
+		s += common.Pick(r, []string{"?", "?x", "?x=1", "#f", "#", "/p", "/", "%41", "%C3%A9", "%c3%a9", "%", "%4", "%zz", "%25", "%2525", " ", "\\", "^", "`", "{}", "|", "\x7f", "\x00", "\t"})
+	}
+	for k := r.Intn(3); k > 0 && r.Chance(1, 3); k-- {
+		s = mutate(r, s)
+	}
+	return s
 }
 
 // constructedCase: ground truth by construction, not by re-splitting the string: the reference is
